@@ -3,8 +3,9 @@ Model/Container — executable models of
 * `container/dynamic.rs`: `DynamicContainer::{write, read, remove, query, flush_bucket,
   flush_all_updates, handle_truncated_read}` and drop + `new` + `open()` (`reopen`),
 * `installation.rs`: `Installation::{write_file, read_file_by_encoding_key, has_encoding_key}`
-  and drop + `open` + `initialize()`; as written after the `fix:` commit that dropped the second
-  BLTE decode (`decodeBlteSecond` keeps the pinned function for the counter-witness).
+  and drop + `open` (+ `initialize()`); as written after the `fix:` commits that dropped the
+  second BLTE decode (`decodeBlteSecond` keeps the pinned function for the counter-witness) and
+  that made `write_file` save the index (`istepWith false` keeps the pinned `write_file`).
 Both are an `ArchiveManager` (Model/Archive) plus an `IndexManager` (Model/Lsm, C05).
 
 A 16-byte key is a byte list; the index sees its first nine bytes as a big-endian number (`key9`).
@@ -110,6 +111,11 @@ inductive IOp
   | has (key : Bytes)
   /-- drop, `Installation::open` on the same directory, `initialize()` -/
   | reopen
+  /-- drop, `Installation::open` on the same directory and NO `initialize()`: fresh managers,
+  nothing loaded, nothing open (what `Storage::open_installation` hands out) -/
+  | openOnly
+  /-- `initialize()` on the current instance: `load_all` + `open_all` -/
+  | init
 deriving Repr
 
 inductive IOut
@@ -123,14 +129,26 @@ inductive IOut
   | indexErr
 deriving DecidableEq, Repr
 
-def istep (P : Archive.Params) (cfg : Lsm.Cfg) (s : IState) : IOp → IState × IOut
+/-- `IndexManager::load_all` on a manager that may already hold buckets: every bucket that has a
+file is (re)loaded from it (`indices.insert`), the others stay as they are. -/
+def loadAll (s : Lsm.State) : Lsm.State :=
+  { s with mem := fun b => match s.disk b with
+      | some img => some (Lsm.loadB img)
+      | none => s.mem b }
+
+/-- `persist = true`: `write_file` as it is now (after `fix:` 947b84f: `save_all` after
+`add_entry`, as `DynamicContainer::write`); `false`: the pinned `write_file`, which never saved
+the index (kept for the counter-witness). -/
+def istepWith (persist : Bool) (P : Archive.Params) (cfg : Lsm.Cfg) (s : IState) :
+    IOp → IState × IOut
   | .write d compress =>
     let mode : Blte.Mode := if compress then .none else .none
     match Archive.write P s.ar d mode with
     | (ar', .error e) => ({ s with ar := ar' }, .err e)
     | (ar', .ok (id, off, total, key)) =>
       match Lsm.step cfg s.ix (.add (key9 key) id off total) with
-      | (ix', .ok) => ({ s with ar := ar', ix := ix' }, .key (P.H d))
+      | (ix', .ok) =>
+        ({ s with ar := ar', ix := if persist then Lsm.saveAll ix' else ix' }, .key (P.H d))
       | (ix', _) => ({ s with ar := ar', ix := ix' }, .indexErr)
   | .read key =>
     match s.cache.find? (fun p => p.1 == key) with
@@ -144,6 +162,20 @@ def istep (P : Archive.Params) (cfg : Lsm.Cfg) (s : IState) : IOp → IState × 
         | .error e => (s, .err e)
   | .has key => (s, .bool (Lsm.lookup s.ix (key9 key)).isSome)
   | .reopen => (⟨Archive.reopen s.ar, Lsm.reload s.ix, []⟩, .ok)
+  | .openOnly => (⟨Archive.dropOpen s.ar, { s.ix with mem := fun _ => none }, []⟩, .ok)
+  | .init => ({ s with ar := Archive.reopen s.ar, ix := loadAll s.ix }, .ok)
+
+/-- the installation as the code has it now. -/
+def istep (P : Archive.Params) (cfg : Lsm.Cfg) (s : IState) (op : IOp) : IState × IOut :=
+  istepWith true P cfg s op
+
+def irunWith (persist : Bool) (P : Archive.Params) (cfg : Lsm.Cfg) :
+    IState → List IOp → IState × List IOut
+  | s, [] => (s, [])
+  | s, op :: ops =>
+    let r := istepWith persist P cfg s op
+    let rest := irunWith persist P cfg r.1 ops
+    (rest.1, r.2 :: rest.2)
 
 def irun (P : Archive.Params) (cfg : Lsm.Cfg) : IState → List IOp → IState × List IOut
   | s, [] => (s, [])
